@@ -66,6 +66,20 @@ type Case struct {
 	Nodes []N
 	Ways  []W
 	Rels  []R
+	// IDMode maps node and way ids: 0 as is, 1 negative (editor placeholders),
+	// 2 beyond 2^40. Only used when no multipolygon/boundary relation is present
+	// (those name features through the packed 40-bit feature id).
+	IDMode int
+}
+
+func (c *Case) mapID(id int64) int64 {
+	switch c.IDMode {
+	case 1:
+		return -id
+	case 2:
+		return id + 1<<40
+	}
+	return id
 }
 
 // node i of the pool sits on a circle in id order: any increasing id sequence
@@ -97,7 +111,7 @@ func (c *Case) build() *osm.OSM {
 		if !n.Present {
 			continue
 		}
-		x := &osm.Node{ID: osm.NodeID(n.ID), Visible: true, Tags: tags(n.Tags), Version: n.Meta.Version, Timestamp: tm(n.Meta.TS), ChangesetID: osm.ChangesetID(n.Meta.Changeset), User: n.Meta.User, UserID: osm.UserID(n.Meta.UID)}
+		x := &osm.Node{ID: osm.NodeID(c.mapID(n.ID)), Visible: true, Tags: tags(n.Tags), Version: n.Meta.Version, Timestamp: tm(n.Meta.TS), ChangesetID: osm.ChangesetID(n.Meta.Changeset), User: n.Meta.User, UserID: osm.UserID(n.Meta.UID)}
 		if n.Unlocated {
 			x.Version = 0
 		} else {
@@ -106,9 +120,9 @@ func (c *Case) build() *osm.OSM {
 		o.Nodes = append(o.Nodes, x)
 	}
 	for _, w := range c.Ways {
-		x := &osm.Way{ID: osm.WayID(w.ID), Visible: true, Tags: tags(w.Tags), Version: w.Meta.Version, Timestamp: tm(w.Meta.TS), ChangesetID: osm.ChangesetID(w.Meta.Changeset), User: w.Meta.User, UserID: osm.UserID(w.Meta.UID)}
+		x := &osm.Way{ID: osm.WayID(c.mapID(w.ID)), Visible: true, Tags: tags(w.Tags), Version: w.Meta.Version, Timestamp: tm(w.Meta.TS), ChangesetID: osm.ChangesetID(w.Meta.Changeset), User: w.Meta.User, UserID: osm.UserID(w.Meta.UID)}
 		for _, r := range w.Refs {
-			wn := osm.WayNode{ID: osm.NodeID(r)}
+			wn := osm.WayNode{ID: osm.NodeID(c.mapID(r))}
 			if w.Annotated {
 				wn.Lon, wn.Lat = loc(r)
 				wn.Version = 1
@@ -120,7 +134,11 @@ func (c *Case) build() *osm.OSM {
 	for _, r := range c.Rels {
 		x := &osm.Relation{ID: osm.RelationID(r.ID), Visible: true, Tags: tags(r.Tags), Version: r.Meta.Version, Timestamp: tm(r.Meta.TS), ChangesetID: osm.ChangesetID(r.Meta.Changeset), User: r.Meta.User, UserID: osm.UserID(r.Meta.UID)}
 		for _, m := range r.Members {
-			x.Members = append(x.Members, osm.Member{Type: osm.Type(m.Type), Ref: m.Ref, Role: m.Role})
+			ref := m.Ref
+			if m.Type != "relation" {
+				ref = c.mapID(ref)
+			}
+			x.Members = append(x.Members, osm.Member{Type: osm.Type(m.Type), Ref: ref, Role: m.Role})
 		}
 		o.Relations = append(o.Relations, x)
 	}
@@ -302,10 +320,6 @@ func check(c Case) error {
 		if !ok {
 			return harness.Failf("C17/feature-id", "feature without string id: %v", f.ID)
 		}
-		if _, dup := feats[id]; dup {
-			return harness.Failf("C17/duplicate-feature", "two features for %s", id)
-		}
-		feats[id] = f
 		var kind string
 		var ref int64
 		if _, err := fmt.Sscanf(id, "%[a-z]/%d", &kind, &ref); err != nil {
@@ -316,6 +330,24 @@ func check(c Case) error {
 			kind = parts[0]
 			fmt.Sscan(parts[1], &ref)
 		}
+		// back to the model's id space (node and way ids may be mapped)
+		written := ref
+		if kind == "node" || kind == "way" {
+			switch c.IDMode {
+			case 1:
+				ref = -ref
+			case 2:
+				ref -= 1 << 40
+			}
+		}
+		if fmt.Sprintf("%s/%d", kind, written) != id {
+			return harness.Failf("C17/feature-id", "feature id %q is not of the form type/id", id)
+		}
+		id = fmt.Sprintf("%s/%d", kind, ref)
+		if _, dup := feats[id]; dup {
+			return harness.Failf("C17/duplicate-feature", "two features for %s", f.ID)
+		}
+		feats[id] = f
 		exists := false
 		var etags []T
 		var meta Meta
@@ -340,7 +372,7 @@ func check(c Case) error {
 			return harness.Failf("C17/invented-feature", "feature %s names no input element", id)
 		}
 		// properties
-		if f.Properties["type"] != kind || fmt.Sprint(f.Properties["id"]) != fmt.Sprint(ref) {
+		if f.Properties["type"] != kind || fmt.Sprint(f.Properties["id"]) != fmt.Sprint(written) {
 			return harness.Failf("C17/properties", "feature %s has type/id properties %v/%v", id, f.Properties["type"], f.Properties["id"])
 		}
 		wantTags := map[string]string{}
@@ -659,6 +691,9 @@ func classify(c Case) (bool, []string) {
 			cl = append(cl, "chained-route")
 		}
 	}
+	if c.IDMode != 0 {
+		cl = append(cl, "negative-or-huge-ids")
+	}
 	seen := map[string]bool{}
 	var out []string
 	for _, s := range cl {
@@ -670,8 +705,8 @@ func classify(c Case) (bool, []string) {
 	return shared || len(c.Rels) > 0, out
 }
 
-var tagSets = [][]T{nil, nil, {{"source", "x"}}, {{"amenity", "pub"}}, {{"created_by", "y"}, {"name", "n"}}, {{"tiger:county", "z"}, {"attribution", "a"}}}
-var wayTagSets = [][]T{nil, {{"highway", "primary"}}, {{"building", "yes"}}, {{"source", "z"}}, {{"area", "yes"}, {"name", "a"}}, {{"landuse", "forest"}}, {{"highway", "service"}, {"area", "no"}}}
+var tagSets = [][]T{nil, nil, {{"source", "x"}}, {{"amenity", "pub"}}, {{"created_by", "y"}, {"name", "n"}}, {{"tiger:county", "z"}, {"attribution", "a"}}, {{"name", ""}}, {{"source", ""}, {"barrier", ""}}}
+var wayTagSets = [][]T{nil, {{"highway", "primary"}}, {{"building", "yes"}}, {{"source", "z"}}, {{"area", "yes"}, {"name", "a"}}, {{"landuse", "forest"}}, {{"highway", "service"}, {"area", "no"}}, {{"name", ""}}, {{"highway", "primary"}, {"ref", ""}}}
 
 func genMeta(t *rapid.T) Meta {
 	m := Meta{}
@@ -752,7 +787,7 @@ func genCase(t *rapid.T) Case {
 			} else if room := len(path) - 1 - at - (np - 1 - p); room > 1 {
 				end = at + rapid.IntRange(1, room).Draw(t, "plen")
 			}
-			way := W{ID: int64(60 + p), Tags: rapid.SampledFrom(wayTagSets[:4]).Draw(t, "ctags"), Annotated: rapid.IntRange(0, 3).Draw(t, "cann") == 0, Meta: genMeta(t)}
+			way := W{ID: int64(60 + p), Tags: rapid.SampledFrom([][]T{nil, {{"highway", "primary"}}, {{"source", "z"}}, {{"name", ""}}}).Draw(t, "ctags"), Annotated: rapid.IntRange(0, 3).Draw(t, "cann") == 0, Meta: genMeta(t)}
 			for i := at; i <= end; i++ {
 				way.Refs = append(way.Refs, int64(path[i]))
 			}
@@ -799,6 +834,15 @@ func genCase(t *rapid.T) Case {
 	// one multipolygon/boundary relation. An "old-style" multipolygon (single outer
 	// way, relation without tags of its own) deliberately takes its outer way's
 	// identity; two such relations over the same way are not judged.
+	hasMP := false
+	for _, r := range c.Rels {
+		if ty := find(r.Tags, "type"); ty == "multipolygon" || ty == "boundary" {
+			hasMP = true
+		}
+	}
+	// IDMode stays 0: ids outside [0, 2^40) are outside the domain the library's
+	// packed feature ids support (C10), its own membership index collides on them.
+	_ = hasMP
 	usedOuter := map[int64]bool{}
 	for ri := range c.Rels {
 		ty := find(c.Rels[ri].Tags, "type")
